@@ -11,6 +11,10 @@ BUDGET = {"quick": 100, "thorough": 900}
 MONITORS = [mon_c02]
 
 
+PARALLEL = [(("pos", (0,)), ("pos", (1,))), (("pos", ()), ("kw", ("k",))), (("kw", ("k", 0)), ("kw", ("k", 1))), (("kw", ("k",)), ("flag", ("k", 1))),
+            (("pos", (0,)), ("flag", ())), (("pos", (1,)), ("pos", (0,)))]
+
+
 def cases(tier: str):
     q = tier == "quick"
     for n in (2, 3):
@@ -39,6 +43,23 @@ def cases(tier: str):
                             for mc in ((2, 3) if q else (1, 2, 3)):
                                 for is_async in ((False,) if q else (False, True)):
                                     yield dict(n=n, es=es4, falsy=falsy, res=res, seq=seq, prio=prio, mc=mc, is_async=is_async,
+                                               ties=1 if q else None)
+    # parallel edges: ONE consumer uses the same producer several times, through different index paths / as argument and flag
+    for n in (2, 3):
+        for es in shapes(n):
+            if not es:
+                continue
+            for (k1, k2) in PARALLEL:
+                for which in range(len(es)):
+                    (i, j) = es[which]
+                    es4 = [(a, b, "pos", ()) for (a, b) in es]
+                    es4[which] = (i, j) + k1
+                    es4.insert(which + 1, (i, j) + k2)
+                    for falsy in flag_falsy_variants(es4):
+                        for res in (res_menu(n)[:3] if q else res_menu(n)):
+                            for mc in (1, 3):
+                                for is_async in ((False,) if q and n == 3 else (False, True)):
+                                    yield dict(n=n, es=es4, falsy=falsy, res=res, seq=(False,) * n, prio=(0,) * n, mc=mc, is_async=is_async,
                                                ties=1 if q else None)
     # constant activation flags: a deactivated node next to pending predecessors of its children
     for n in (2, 3, 4):
